@@ -86,7 +86,20 @@ pub fn list_result(v: &Value) -> Term {
 
 pub fn run(case: &Term) -> Term {
     let elems: Vec<Value> = case.strs().iter().map(|s| Value::from(s.as_str())).collect();
-    let formatted = Value::from(elems).as_str().to_string();
+    let mut formatted = Value::from(elems).as_str().to_string();
+    // the same elements after each has been viewed as a list, a dictionary and a number (whatever a
+    // value has cached, the string form of the list it is an element of is the same)
+    let viewed: Vec<Value> = case.strs().iter().map(|s| Value::from(s.as_str())).collect();
+    for v in &viewed {
+        let _ = v.as_list();
+        let _ = v.as_dict();
+        let _ = v.as_list();
+        let _ = v.as_int();
+    }
+    let formatted_viewed = Value::from(viewed).as_str().to_string();
+    if formatted_viewed != formatted {
+        formatted = format!("{}<<differs after views>>{}", formatted, formatted_viewed);
+    }
     let back = Value::from(formatted.as_str());
     let r = list_result(&back);
     let f2 = match back.as_list() {
